@@ -80,8 +80,10 @@ def src_name(op):
     return "%ssrc_%s" % (PFX, op["src"])
 
 
-def probe_text(key):
+def probe_text(key, kind="call"):
     name, ar = key
+    if kind == "clause":
+        return "catch(findall('-'(X,B), clause(%s(X), B), L), error(E, _), true)." % terms.quote_atom(name)
     if ar == 1:
         return "catch(findall(X, %s(X), L), error(E, _), true)." % terms.quote_atom(name)
     return "catch(findall('-'(X,Y), %s(X,Y), L), error(E, _), true)." % terms.quote_atom(name)
@@ -95,7 +97,7 @@ def make_job(hid, v):
         steps.append({"consult" if op["api"] == "consult" else "load": text, "module": src_name(op)})
         steps.append({"footprint": PFX})
         for p in probes_of(v, j):
-            steps.append({"q": probe_text(p["key"]), "max": 3})
+            steps.append({"q": probe_text(p["key"], p.get("kind", "call")), "max": 3})
     return {"id": hid, "fresh": True, "steps": steps, "timeout": 300}
 
 
